@@ -21,5 +21,7 @@ UNIT.pinned = [(PB, "ProgressBar", n) for n in
     ("src/draw_target.rs", "ProgressDrawTarget", "hidden"), ("src/draw_target.rs", "ProgressDrawTarget", "term"),
     ("src/draw_target.rs", "ProgressDrawTarget", "stdout"), ("src/draw_target.rs", "ProgressDrawTarget", "stderr"),
     ("src/draw_target.rs", "ProgressDrawTarget", "stdout_with_hz"), ("src/draw_target.rs", "ProgressDrawTarget", "stderr_with_hz"),
+    # the forwarding of TermLike to console::Term (the ghost terminal is the contract of TermLike; a real tty is not available here)
+    ] + [("src/term_like.rs", "TermLike for Term", n) for n in ["width", "height", "move_cursor_up", "move_cursor_down", "move_cursor_right", "move_cursor_left", "write_line", "write_str", "clear_line", "flush"]] + [
     ("src/draw_target.rs", "std::ops::Deref for DrawStateWrapper", "deref"), ("src/draw_target.rs", "std::ops::DerefMut for DrawStateWrapper", "deref_mut"),
 ]
